@@ -463,6 +463,19 @@ pub struct P2PSizes {
     pub spectators: Vec<(String, EndpointInfo)>,
 }
 
+/// What the desync detection of a `P2PSession` reads and keeps.
+#[derive(Clone, Debug, Default)]
+pub struct DesyncView {
+    pub last_confirmed: crate::Frame,
+    pub last_sent: crate::Frame,
+    /// local_checksum_history, ascending by frame
+    pub history: Vec<(crate::Frame, u128)>,
+    /// pending_checksums of every remote endpoint (ascending by address, then frame)
+    pub pending: Vec<(String, Vec<(crate::Frame, u128)>)>,
+    /// (frame, checksum) of every saved-state cell, in ring order
+    pub cells: Vec<(crate::Frame, Option<u128>)>,
+}
+
 /// Buffer sizes of a `SpectatorSession`.
 #[derive(Clone, Debug, Default)]
 pub struct SpectatorSizes {
